@@ -69,6 +69,7 @@
 
 #ifndef URI_DOXYGEN
 # include <uriparser/Uri.h>
+# include <uriparser/UriIp4.h>
 # include "UriNormalizeBase.h"
 # include "UriCommon.h"
 # include "UriMemory.h"
@@ -704,6 +705,22 @@ static URI_INLINE int URI_FUNC(NormalizeSyntaxEngine)(URI_TYPE(Uri) * uri,
 
 				URI_FUNC(LowercaseInplaceExceptPercentEncoding)(uri->hostText.first,
 						uri->hostText.afterLast);
+
+				/* Decoding can turn a registered name into the text of an
+				 * IPv4 address ("1%2E2.3.4"): that text reads back as an IPv4
+				 * host, so the URI has to hold one from now on */
+				{
+					unsigned char octets[4];
+					if (URI_FUNC(ParseIpFourAddress)(octets, uri->hostText.first,
+							uri->hostText.afterLast) == URI_SUCCESS) {
+						uri->hostData.ip4 = memory->malloc(memory, 1 * sizeof(UriIp4));
+						if (uri->hostData.ip4 == NULL) {
+							URI_FUNC(PreventLeakage)(uri, doneMask, memory);
+							return URI_ERROR_MALLOC;
+						}
+						memcpy(uri->hostData.ip4->data, octets, 4);
+					}
+				}
 			}
 		}
 	}
